@@ -280,10 +280,12 @@ CLAIMED = {
              "conv_modular / conv32_modular (ToInt8..ToUint32 as implemented are the specification's modular conversions for every double, "
              "no magnitude restriction after the fix), inbounds_access (every element access of a view that is not out of bounds lies inside "
              "the buffer, for every geometry and every buffer length), oob_has_no_elements, bytes_roundtrip (both byte orders, every width), "
-             "write_frame, set_get. The byte model (buffers fixed/resizable/detached, fixed and length-tracking views, DataView) is tied to the "
+             "write_frame, set_get; copyWithin_loop_eq_memmove (the specification's directional byte-at-a-time loop of %TypedArray%.prototype.copyWithin "
+             "equals the engine's single memmove of a snapshot, for every buffer, either overlap direction and every count below the limit), "
+             "copyWithin_frame (no byte outside [to, to+count) changes), copyWithin_ranges (an in-bounds view yields byte ranges inside the view). The byte model (buffers fixed/resizable/detached, fixed and length-tracking views, DataView) is tied to the "
              "engine by a correspondence run over operation histories rendered to JavaScript.",
         technique="Lean 4 proofs (omega, induction) over a byte-level model + differential correspondence run of JS histories against the engine",
-        note="Not modelled: Float32/Float16 rounding, fill/copyWithin/set/subarray/slice/sort, SharedArrayBuffer/Atomics; raw memory code in array_buffer/utils.rs is modelled by its logical effect.",
+        note="Not modelled: Float32/Float16 rounding, fill/subarray/slice/sort, copyWithin with negative or non-integer arguments, SharedArrayBuffer/Atomics; raw memory code in array_buffer/utils.rs is modelled by its logical effect.",
     ),
     "C09": dict(
         level="proof",
